@@ -2,6 +2,8 @@ package sim
 
 import (
 	"bufio"
+	"sync/atomic"
+	"time"
 	"encoding/json"
 	"fmt"
 	"os"
@@ -122,6 +124,7 @@ func TestSim(t *testing.T) {
 		t.Skip("SIM_MODE not set")
 	}
 	debug.SetGCPercent(400)
+	startWatchdog()
 	out := os.Stdout
 	if p := os.Getenv("SIM_OUT"); p != "" {
 		f, err := os.Create(p)
@@ -200,4 +203,55 @@ func TestSim(t *testing.T) {
 	default:
 		t.Fatalf("unknown SIM_MODE %q", mode)
 	}
+}
+
+// ---- watchdog ------------------------------------------------------------------
+
+// simProgress is bumped whenever the driver settles: a run in which it stands
+// still is stuck. Blocking on a sync.Mutex is not a durable block for
+// testing/synctest, so a gateway that deadlocks on its own locks would hang the
+// bubble for ever; the watchdog (a goroutine outside every bubble, on the real
+// clock) turns that into a process death that the runner picks up, with the
+// decision journal, like a crash.
+var simProgress atomic.Uint64
+
+func startWatchdog() {
+	limit := 40 * time.Second
+	if v := os.Getenv("SIM_WATCHDOG"); v != "" {
+		if d, err := time.ParseDuration(v); err == nil {
+			limit = d
+		}
+	}
+	go func() {
+		last, since := simProgress.Load(), time.Now()
+		for {
+			time.Sleep(time.Second)
+			if cur := simProgress.Load(); cur != last {
+				last, since = cur, time.Now()
+				continue
+			}
+			if time.Since(since) < limit {
+				continue
+			}
+			buf := make([]byte, 1<<22)
+			buf = buf[:runtime.Stack(buf, true)]
+			stuck := ""
+			for _, g := range strings.Split(string(buf), "\n\n") {
+				if (strings.Contains(g, "sync.(*Mutex).Lock") || strings.Contains(g, "sync.(*RWMutex).Lock") || strings.Contains(g, "sync.(*RWMutex).RLock")) &&
+					(strings.Contains(g, "resgate/server") || strings.Contains(g, "resgate/nats")) {
+					ls := strings.Split(g, "\n")
+					if len(ls) > 14 {
+						ls = ls[:14]
+					}
+					stuck += strings.Join(ls, "\n") + "\n\n"
+				}
+			}
+			if stuck != "" {
+				fmt.Fprintf(os.Stderr, "panic: gateway deadlock: goroutines of the gateway wait for a lock and nothing has moved for %v\n\nwaiting for a lock:\n%s\nall goroutines:\n%s\n", limit, stuck, buf)
+				os.Exit(3)
+			}
+			fmt.Fprintf(os.Stderr, "verif watchdog: no progress for %v, and no gateway goroutine waits for a lock (harness trouble)\n\n%s\n", limit, buf)
+			os.Exit(4)
+		}
+	}()
 }
